@@ -314,6 +314,10 @@ def build_file(spec, cls=None):
 def get_data(v):
     """(data ndarray, mask bool ndarray or None) of a library variable"""
     a = v[...]
+    if a is np.ma.masked:
+        # 0-d masked element: numpy hands out the float64 singleton; keep
+        # the variable's own dtype
+        return np.zeros((), dtype=v.dtype), np.ones((), dtype=bool)
     if isinstance(a, np.ma.MaskedArray):
         return np.asarray(np.ma.getdata(a)), np.ma.getmaskarray(a).copy()
     return np.asarray(a), None
@@ -398,6 +402,8 @@ def cmp_array(lib, exp, what, bits=True, rtol=0.0, atol=0.0,
     model.  Returns None or a message."""
     if hasattr(lib, 'dimensions') or not isinstance(lib, np.ndarray):
         la = lib[...]
+        if la is np.ma.masked:
+            la = np.ma.MaskedArray(np.zeros((), dtype=lib.dtype), mask=True)
     else:
         la = lib
     ld = np.asarray(np.ma.getdata(la))
